@@ -15,6 +15,8 @@ A *case* is plain JSON-like data:
     T     {"fn": id} | {"wf": name}
     E     {"lit": json} | {"path": [root, key, ...]} | {"map": [[key, E], ...]} | {"list": [E, ...]} | {"bad": True}
     FN    {"c": ok|skip|depSkip|retry|permFail, "d": delay, "how": "pre"|"eval"|None, "by": key|None,
+           optional: "name" (Koreo resource name if not the id), "noret" (no `return`: Ok value null),
+           "showres" (Ok value also carries resource.spec.tag, which is the id); rf optional: "kind", "apiVersion", "noplural"
            "rf": None | {"prefix", "nameKey": None|key, "mode", "calls": [...], "pre": bool}}
 
 `to_req(case)` is the request for lean/Driver/WorkflowWire.lean; `koreo_specs(case)` are the real
@@ -463,6 +465,161 @@ def gen_item_error_case(r):
             "control": control}
 
 
+def gen_falsy_state_case(r):
+    """steps with a `state` block whose Logic succeeds with a FALSY value: a ValueFunction / ResourceFunction without
+    `return` (null), a forEach over an empty list ([]), a sub-workflow that publishes no state ({}); plus ordinary
+    steps publishing state around them (shared keys included)"""
+    fns, steps, defs = {}, [], []
+    n = r.randint(2, 5)
+    for i in range(n):
+        l = f"st{i}"
+        site = f"main.{l}"
+        kind = r.choice(["vf-noret", "rf-noret", "empty-foreach", "empty-sub", "plain", "plain", "skip"])
+        fe = None
+        logic = {"ref": {"fn": site}}
+        if kind == "vf-noret":
+            fns[site] = {**_vf(), "noret": True}
+        elif kind == "rf-noret":
+            fns[site] = {**_rf(site, r.choice(["get-ok", "match-ok"])), "noret": True}
+        elif kind == "empty-foreach":
+            fns[site] = _vf()
+            fe = {"itemIn": lit([]) if r.random() < 0.5 else path("parent", "none"), "inputKey": "item"}
+        elif kind == "empty-sub":
+            sub = f"sub-main.{l}"
+            fns[f"{sub}.in0"] = _vf()
+            defs.append({"name": sub, "steps": [_step("in0", {"ref": {"fn": f"{sub}.in0"}}, state=None, cond=False)]})
+            logic = {"ref": {"wf": sub}}
+        elif kind == "skip":
+            fns[site] = _vf("skip")
+        else:
+            fns[site] = _vf() if r.random() < 0.6 else _rf(site, "get-ok")
+        kvs = [[k, lit(r.choice([l, 1, True, [l], {"by": l}]))]
+               for k in r.sample(["k0", "k1", l], r.randint(1, 2))]
+        if r.random() < 0.3:
+            kvs.append([l + "v", path("value")])
+        steps.append(_step(l, logic, inputs={"map": [["x", lit(i)]]} if r.random() < 0.7 else None, for_each=fe,
+                           state={"map": kvs}))
+    trig = gen_trigger(r)
+    trig["none"] = []
+    return {"trig": trig, "main": "main", "defs": [{"name": "main", "steps": steps}] + defs, "fns": fns}
+
+
+def gen_shared_name_switch_case(r):
+    """a refSwitch whose cases name Logic of DIFFERENT KINDS under ONE Koreo name (ValueFunction X / ResourceFunction X /
+    Workflow X are separate caches); every case is selected by some generated case; each kind answers differently"""
+    fns, steps, defs = {}, [], []
+    shared = "shared-x"
+    kinds = r.sample(["vf", "rf", "wf"], r.choice([2, 3]))
+    sel = r.randrange(len(kinds))
+    fns["main.st0"] = _vf()
+    steps.append(_step("st0", {"ref": {"fn": "main.st0"}}, inputs={"map": [["sel", lit(f"c{sel}")], ["x", lit(gen_json(r, 1))]]}))
+    cases = []
+    for j, kd in enumerate(kinds):
+        site = f"main.st1.c{j}"
+        if kd == "vf":
+            fns[site] = {**_vf(), "name": shared}
+            cases.append([f"c{j}", {"fn": site}])
+        elif kd == "rf":
+            fns[site] = {**_rf(site, r.choice(["get-ok", "match-ok"])), "name": shared}
+            cases.append([f"c{j}", {"fn": site}])
+        else:
+            fns[f"{shared}.in0"] = _vf()
+            defs.append({"name": shared, "steps": [_step("in0", {"ref": {"fn": f"{shared}.in0"}},
+                                                          inputs={"map": [["p", path("parent", "sel")]]})]})
+            cases.append([f"c{j}", {"wf": shared}])
+    on = r.choice([path("steps", "st0", "got", "sel"), path("inputs", "sel"), lit(f"c{sel}")])
+    dflt = None if r.random() < 0.6 else cases[0][1]
+    steps.append(_step("st1", {"switch": {"on": on, "cases": cases, "default": dflt}},
+                       inputs={"map": [["sel", path("steps", "st0", "got", "sel")], ["y", lit(r.choice(SCALARS))]]}))
+    fns["main.st2"] = _vf()
+    steps.append(_step("st2", {"ref": {"fn": "main.st2"}}, inputs={"map": [["from", path("steps", "st1")]]}))
+    return {"trig": gen_trigger(r), "main": "main", "defs": [{"name": "main", "steps": steps}] + defs, "fns": fns}
+
+
+def gen_foreach_switch_steps_case(r):
+    """a forEach step whose Logic is a refSwitch with a `switchOn` that reads `steps.*` (evaluated later, inside the
+    item tasks), with other steps of DIFFERENT dependency sets listed around it whose gates open at the same time"""
+    fns, steps = {}, []
+    heavy = r.random() < 0.5        # dependencies finish on API calls (so their completion order can be permuted)
+    for i, sel in enumerate([f"c{r.randrange(2)}", "zz"]):
+        site = f"main.st{i}"
+        fns[site] = _rf(site, "get-ok") if heavy else _vf()
+        steps.append(_step(f"st{i}", {"ref": {"fn": site}}, inputs={"map": [["sel", lit(sel)], ["lst", lit(["a", "b", "c"][:r.randint(1, 3)])]]}))
+    other_first = r.random() < 0.3
+
+    def other(label):
+        fns[f"main.{label}"] = _vf()
+        return _step(label, {"ref": {"fn": f"main.{label}"}}, inputs={"map": [["o", path("steps", "st1", "got", "sel")]]})
+
+    if other_first:
+        steps.append(other("st2"))
+    lbl = f"st{len(steps)}"
+    cases = []
+    for j in range(2):
+        site = f"main.{lbl}.c{j}"
+        fns[site] = _vf() if r.random() < 0.6 else _rf(site, "get-ok")
+        cases.append([f"c{j}", {"fn": site}])
+    items = lit(["p", "q", "r"][:r.randint(1, 3)]) if r.random() < 0.5 else path("steps", "st0", "got", "lst")
+    steps.append(_step(lbl, {"switch": {"on": path("steps", "st0", "got", "sel"), "cases": cases,
+                                       "default": None if r.random() < 0.5 else cases[1][1]}},
+                       inputs={"map": [["k", lit(7)]]}, for_each={"itemIn": items, "inputKey": "item"}))
+    for _ in range(r.randint(1, 2)):
+        steps.append(other(f"st{len(steps)}"))
+    return {"trig": gen_trigger(r), "main": "main", "defs": [{"name": "main", "steps": steps}], "fns": fns}
+
+
+def gen_lookup_case(r):
+    """ResourceFunctions prepared WITHOUT `plural` (kind Gadget): the first use in a pass must discover it through
+    `api.lookup_kind`; several steps / forEach iterations wait on the same discovery"""
+    fns, steps = {}, []
+    n = r.randint(1, 3)
+    for i in range(n):
+        l = f"st{i}"
+        site = f"main.{l}"
+        f = _rf(site, r.choice(["get-ok", "match-ok", "get-ok", "create"]), name_key="item" if r.random() < 0.35 else None)
+        f["rf"].update({"kind": "Gadget", "noplural": True})
+        fns[site] = f
+        fe = {"itemIn": lit(r.sample(ITEMS, r.randint(1, 3))), "inputKey": "item"} if f["rf"]["nameKey"] else None
+        ins = [["x", lit(i)]]
+        if i and r.random() < 0.4:
+            ins.append(["prev", path("steps", f"st{i - 1}")])
+        steps.append(_step(l, {"ref": {"fn": site}}, inputs={"map": ins}, for_each=fe))
+    l = f"st{n}"
+    fns[f"main.{l}"] = _vf() if r.random() < 0.5 else _rf(f"main.{l}", "get-ok")
+    steps.append(_step(l, {"ref": {"fn": f"main.{l}"}}, inputs={"map": [["from", path("steps", "st0")]]}))
+    return {"trig": gen_trigger(r), "main": "main", "defs": [{"name": "main", "steps": steps}], "fns": fns}
+
+
+def gen_group_collision_case(r):
+    """two ResourceFunctions of one pass read objects with the SAME kind word, namespace and name in two DIFFERENT API
+    groups; each answers with a tag stored in its own object.  Variants: both start at once (their GETs overlap when the
+    calls take time) or the second waits for a third step (overlap depends on the completion order)"""
+    fns, steps = {}, []
+    name = "same-name"
+    groups = ["verif.dev/v1", "other.verif.dev/v1"]
+    r.shuffle(groups)
+    chained = r.random() < 0.5
+    if chained:
+        fns["main.st0"] = _rf("main.st0", "get-ok")
+        steps.append(_step("st0", {"ref": {"fn": "main.st0"}}, inputs={"map": [["x", lit(0)]]}))
+    for j, g in enumerate(groups):
+        l = f"st{len(steps)}"
+        site = f"main.{l}"
+        f = _rf(name, r.choice(["get-ok", "match-ok"]))
+        f["rf"].update({"kind": "Widget", "apiVersion": g})
+        f["showres"] = True
+        fns[site] = f
+        ins = [["g", lit(j)]]
+        if chained and j == 1:
+            ins.append(["after", path("steps", "st0", "got", "x")])
+        steps.append(_step(l, {"ref": {"fn": site}}, inputs={"map": ins}))
+    l = f"st{len(steps)}"
+    fns[f"main.{l}"] = _vf()
+    steps.append(_step(l, {"ref": {"fn": f"main.{l}"}},
+                       inputs={"map": [["a", path("steps", steps[-1]["label"], "res")], ["b", path("steps", steps[-2]["label"], "res")]]}))
+    return {"trig": gen_trigger(r), "main": "main", "defs": [{"name": "main", "steps": steps}], "fns": fns}
+
+
 def gen_race_case(r):
     """a step with ≥ 2 dependencies that are NOT Ok and each finish on an API call (so that their completion order
     can be permuted), `condition` declared on the dependent and on the steps downstream of it"""
@@ -575,6 +732,12 @@ def _wire_fn(f):
     w = {"c": f["c"], "d": f.get("d", 0)}
     if f.get("by"):
         w["by"] = f["by"]
+    if f.get("name"):
+        w["kname"] = f["name"]
+    if f.get("noret"):
+        w["noret"] = True
+    if f.get("showres"):
+        w["res"] = True
     if f.get("rf"):
         rf = f["rf"]
         w["rf"] = {"prefix": rf["prefix"], "nameKey": rf["nameKey"], "calls": rf["calls"], "pre": rf["pre"]}
@@ -656,19 +819,28 @@ def fn_spec(fid, f):
     if f.get("by"):
         return "ValueFunction", _chameleon_spec(fid, f["by"])
     rf = f.get("rf")
+    if f.get("showres") and rf:
+        ret["res"] = "=resource.spec.tag"
     if not rf:
+        if f["c"] == "ok" and f.get("noret"):       # validation-only: Ok with the value null
+            return "ValueFunction", {"preconditions": [{"assert": "=true", "permFail": {"message": "never"}}]}
         if f["c"] == "ok":
             return "ValueFunction", {"return": ret}
         if f.get("how") == "eval":
             return "ValueFunction", {"return": {"site": fid, "boom": "=1/0"}}
         return "ValueFunction", {"preconditions": _pre(f["c"], f["d"]), "return": ret}
     name = rf["prefix"] if not rf["nameKey"] else f'="{rf["prefix"]}." + inputs.{rf["nameKey"]}'
-    spec = {"apiConfig": {"apiVersion": API_VERSION, "kind": KIND, "plural": PLURAL, "name": name,
-                          "namespace": NS, "readonly": rf["mode"] in READONLY_MODES},
+    kind = rf.get("kind", KIND)
+    spec = {"apiConfig": {"apiVersion": rf.get("apiVersion", API_VERSION), "kind": kind, "plural": kind.lower() + "s",
+                          "name": name, "namespace": NS, "readonly": rf["mode"] in READONLY_MODES},
             "resource": {"spec": {"want": 1}},
             "create": {"delay": f["d"]},
             "update": {"recreate" if rf["mode"] == "recreate" else "patch": {"delay": f["d"]}},
             "return": ret}
+    if rf.get("noplural"):          # the plural must be discovered (`api.lookup_kind`) on first use
+        del spec["apiConfig"]["plural"]
+    if f.get("noret"):
+        del spec["return"]
     if rf["pre"]:
         spec["preconditions"] = _pre(f["c"], f["d"]) if f["c"] != "ok" else []
         if not spec["preconditions"]:
@@ -691,11 +863,12 @@ def initial_objects(case, owner_ref):
         need = RF_MODES[rf["mode"]][2]
         if need is None:
             continue
+        kind, api_version = rf.get("kind", KIND), rf.get("apiVersion", API_VERSION)
         for name in resource_names(f):
-            objs[(API_VERSION, PLURAL, NS, name)] = {
-                "apiVersion": API_VERSION, "kind": KIND,
+            objs[(api_version, kind.lower() + "s", NS, name)] = {
+                "apiVersion": api_version, "kind": kind,
                 "metadata": {"name": name, "namespace": NS, "ownerReferences": [dict(owner_ref)]},
-                "spec": {"want": 2 if need == "differ" else 1}}
+                "spec": {"want": 2 if need == "differ" else 1, **({"tag": fid} if f.get("showres") else {})}}
     return objs
 
 
@@ -742,13 +915,14 @@ def koreo_specs(case):
     for fid, f in case["fns"].items():
         kind, spec = fn_spec(fid, f)
         kinds[fid] = kind
-        out.append((kind, fid, spec))
+        out.append((kind, f.get("name", fid), spec))     # `name`: the Koreo resource name when it is not the id
     for wf in reversed(case["defs"]):       # sub-workflows are appended after their user
         spec = workflow_spec(wf)
         for st in spec["steps"]:
             for ref in ([st["ref"]] if "ref" in st else st["refSwitch"]["cases"]):
                 if ref["kind"] is None:
                     ref["kind"] = kinds[ref["name"]]
+                    ref["name"] = case["fns"][ref["name"]].get("name", ref["name"])
         out.append(("Workflow", wf["name"], spec))
     return out
 
